@@ -432,8 +432,8 @@ func init() {
 }
 
 const hookScript = `#!/bin/sh
-# $1 name, $2 mode (b blocking | n non-blocking), $3 outcome (ok | fail)
-d=$(dirname "$0")
+# $1 name, $2 mode (b blocking | n non-blocking), $3 outcome (ok | fail), $4 directory of the history
+d="$4"
 if [ "$2" = n ]; then
 	# a non-blocking command stays alive until the harness releases it (bounded)
 	i=0
@@ -455,7 +455,9 @@ func casketfileText(dir string, gen int, cf cfgSpec, fail string) string {
 	}
 	fmt.Fprintf(&b, "%s {\n\tverifevhook\n", keys)
 	for j, o := range cf.Ons {
-		cmd := filepath.Join(dir, "hook.sh")
+		// one script for all histories, written before the first child is forked (a script written
+		// while other goroutines fork could be "text file busy" for the process that runs it)
+		cmd := filepath.Join(filepath.Dir(dir), "hook.sh")
 		if o.O == "nostart" {
 			cmd = filepath.Join(dir, "no-such-command")
 		}
@@ -463,7 +465,7 @@ func casketfileText(dir string, gen int, cf cfgSpec, fail string) string {
 		if o.M == "n" {
 			amp = " &"
 		}
-		fmt.Fprintf(&b, "\ton %s %s g%d.%d %s %s%s\n", onWord[o.E], cmd, gen, j+1, o.M, o.O, amp)
+		fmt.Fprintf(&b, "\ton %s %s g%d.%d %s %s %s%s\n", onWord[o.E], cmd, gen, j+1, o.M, o.O, dir, amp)
 	}
 	if fail == "onparse" {
 		b.WriteString("\ton nosuchevent /bin/true\n")
@@ -670,9 +672,6 @@ type child struct {
 
 func spawn(dir string) (*child, error) {
 	if err := os.MkdirAll(dir, 0o755); err != nil {
-		return nil, err
-	}
-	if err := os.WriteFile(filepath.Join(dir, "hook.sh"), []byte(hookScript), 0o755); err != nil {
 		return nil, err
 	}
 	r, w, err := os.Pipe()
@@ -1091,6 +1090,10 @@ func TestCx16Events(t *testing.T) {
 		return
 	}
 	defer os.RemoveAll(root)
+	if err := os.WriteFile(filepath.Join(root, "hook.sh"), []byte(hookScript), 0o755); err != nil {
+		res.Infra = err.Error()
+		return
+	}
 
 	outs := make([]*outcome, len(cases))
 	var mu sync.Mutex
